@@ -8,7 +8,7 @@ cd $WT || exit 2
 export CARGO_TARGET_DIR=$WT/target CARGO_NET_OFFLINE=true
 OUT=/verif/seeded/$NAME; mkdir -p $OUT
 [ -f seed/patch.diff ] && cp seed/patch.diff seed/demo.diff seed/meta.json $OUT/
-DEMO=$(python3 -c "import json;print(json.load(open('$OUT/meta.json'))['demo_cmd'])")
+DEMO=$(python3 -c "import json,re;print(re.sub(r'/tmp/wt-[A-Za-z0-9]+', '$WT', json.load(open('$OUT/meta.json'))['demo_cmd']))")
 LOG=$OUT/confirm.log; : > $LOG
 # normalise: start from pristine tree, apply demo only
 git checkout -q -- . ; git clean -fdq -e target -e seed
